@@ -331,6 +331,22 @@ def package_mc(tier):
                  expect_violation='Inv_C16_TemplateIsRender')]
 
 
+def template_mc(tier):
+    """exhaustive TLC runs of the ObjectTemplate controller model (spec/PKOTemplate.tla): triggers, label-filtered events, retry timers"""
+    q = tier == 'quick'
+    c = dict(Vals='MCVals', WatchBeforeRead='TRUE', TimerOptional='TRUE', OtherWatcher='TRUE', MaxEdit=4 if q else 6, MaxCrash=1)
+    inv = ['TypeOK', 'Inv_C18_OutputIsRender', 'Inv_C18_Freed']
+    return [dict(name='template-intended', kind='gen', module='MC_PKOTemplate', spec='FairSpec', constants=c, invariants=inv,
+                 props=['Live_C18_EventuallyCurrent'], timeout=3000),
+            dict(name='template-alone', kind='gen', module='MC_PKOTemplate', spec='FairSpec', constants=dict(c, OtherWatcher='FALSE'), invariants=inv,
+                 props=['Live_C18_EventuallyCurrent'], timeout=3000),
+            # negative controls: two seeded changes the trace checks caught, at the design level
+            dict(name='template-negctl-watch', kind='gen', module='MC_PKOTemplate', constants=dict(c, WatchBeforeRead='FALSE'),
+                 invariants=['Inv_C18_OutputIsRender'], expect_violation='Inv_C18_OutputIsRender'),
+            dict(name='template-negctl-timer', kind='gen', module='MC_PKOTemplate', constants=dict(c, TimerOptional='FALSE'),
+                 invariants=['Inv_C18_OutputIsRender'], expect_violation='Inv_C18_OutputIsRender')]
+
+
 LIVE = ['Live_C10_ObjectsRepaired', 'Live_C10_Quiescent', 'Live_C10_TeardownCompletes']
 
 
@@ -450,7 +466,7 @@ CHECKS = {
                 level_text='Every row of the abstract probe-list x object table (single-entry lists exhaustively, longer lists sampled/seeded) is concretised, run through the real internal/probing.Parse and pkg/probing probers, and TLC compares verdict, number of reported failures, parse errors and object immutability with the TLA+ function Probing!Pass.',
                 jobs=lambda tier, seed: [dict(name='probe-table', module='TraceProbing', shards=8 if tier == 'quick' else 14,
                                               driver=['probe-table', '-n', '4000' if tier == 'quick' else '300000', '-seed', str(seed)])]),
-    'C18': dict(level='model_checking', invariants=INV['C18'], assumptions=ASSUME + [
+    'C18': dict(level='model_checking', mc=template_mc, invariants=INV['C18'], assumptions=ASSUME + [
         'reconciles are triggered through the real EnqueueWatchingObjects handler (changes of cache-labelled objects of watched kinds) and RequeueAfter timers',
         'template domain: one template family (required + optional ConfigMap source), unparsable template, out-of-namespace source / target'],
         jobs=lambda tier, seed: [dict(name='template-walk', shards=4 if tier == 'quick' else 14,
@@ -510,7 +526,7 @@ TECHNIQUES = {
     'C15': 'TLA+ model-based: exhaustive TLC check (safety + liveness) of the delegated-phase protocol model spec/PKOPhase.tla (decision function spec/RemotePhase.tla); differential delegated-vs-local runs and seeded schedules of the real ObjectSet / ObjectSetPhase controllers; ' + TV + ' (C01-C06, C09 invariants on delegated scenarios)',
     'C16': 'TLA+ model-based: exhaustive TLC check of the Package controller model spec/PKOPackage.tla (unpack / deploy / record per API call; the known finding as negative control, the atomic variant incl. liveness); seeded histories of Package edits, faults and conflicts on the real Package controller + deployer; ' + TV + ' (reference render = the same pipeline called directly)',
     'C17': 'TLA+ model-based: probing specified as a function of abstract (probe list, object) rows (spec/Probing.tla); rows concretised and run through the real parser and probes; TLC (spec/TraceProbing.tla) compares verdict and messages',
-    'C18': 'TLA+ model-based: seeded histories on the real ObjectTemplate controller with reconciles triggered through the real EnqueueWatchingObjects handler and RequeueAfter timers; ' + TV,
+    'C18': 'TLA+ model-based: exhaustive TLC check (safety + liveness) of the ObjectTemplate controller model spec/PKOTemplate.tla (triggers, label-filtered events, retry timers; two seeded defects as negative controls); seeded histories on the real ObjectTemplate controller with reconciles triggered through the real EnqueueWatchingObjects handler and RequeueAfter timers; ' + TV,
     'C19': 'TLA+ model-based (reduced scope): the domain of input shape classes is declared in spec/Shapes.tla; every row is run through its real entry point (recover + watchdog, recursion rows in child processes); TLC (spec/TraceShapes.tla) checks no row panics / hangs and the domain is covered',
     'C20': 'TLA+ model-based: exhaustive TLC check of spec/ReqMgr.tla at critical-section granularity incl. liveness (no lost wake-up) under fairness; enumerated and random scripts (arrivals, completions, failures, cancellation) and free-running stress on the real RequestManager validated by TLC (spec/TraceReqMgr.tla)',
 }
